@@ -122,6 +122,9 @@ def truth(run, v):
             P.is_ObjV(t),
         )
     if isinstance(ty, TObj):
+        h = run.x.reg.stubs.get(("truth", ty.name))
+        if h is not None:
+            return h(run, v)
         return uf(f"truthy_{ty.name}", ty.sort(), B)(t)
     raise err(f"truthiness of {ty}")
 
@@ -409,6 +412,9 @@ def unpack(run, v, n, node):
 def iter_to_seq(run, it, node):
     if isinstance(it, Val):
         it = unopt(run, it, node, "iterable")
+        h = run.x.reg.stubs.get(("iter", it.ty.name))
+        if h is not None:
+            return h(run, it)
         if isinstance(it.ty, TSeq):
             return it
         if isinstance(it.ty, TDict):
@@ -659,6 +665,10 @@ def is_(run, a, b, node):
             return TAny.sort().is_NoneV(b.t)
         return z3.BoolVal(False)
     if isinstance(a, Val) and isinstance(b, Val):
+        for x, y in ((a, b), (b, a)):
+            h = run.x.reg.stubs.get(("is_false", x.ty.name))
+            if h is not None and y.ty is TBool and z3.is_false(z3.simplify(y.t)):
+                return h(run, x)
         if isinstance(a.ty, TRef) and isinstance(b.ty, TRef):
             return a.t == b.t
         if a.ty is TBool and b.ty is TBool:
